@@ -8,6 +8,7 @@
 package strings
 
 import (
+	"math"
 	"strconv"
 	"strings"
 	"unicode/utf8"
@@ -15,6 +16,11 @@ import (
 	"github.com/ozanh/ugo"
 	"github.com/ozanh/ugo/stdlib"
 )
+
+// maxAllocLen is the largest string length that Repeat, PadLeft and PadRight
+// try to allocate. Larger requests cannot be honoured and are reported as
+// errors.
+const maxAllocLen = math.MaxInt32
 
 // Module represents time module.
 var Module = map[string]ugo.Object{
@@ -241,11 +247,11 @@ var Module = map[string]ugo.Object{
 	// Returns a new string consisting of count copies of the string s.
 	//
 	// - If count is a negative int, it returns empty string.
-	// - If (len(s) * count) overflows, it panics.
+	// - If (len(s) * count) is greater than 2147483647, it returns an error.
 	"Repeat": &ugo.Function{
 		Name:    "Repeat",
-		Value:   stdlib.FuncPsiRO(repeatFunc),
-		ValueEx: stdlib.FuncPsiROEx(repeatFunc),
+		Value:   stdlib.FuncPsiROe(repeatFunc),
+		ValueEx: stdlib.FuncPsiROeEx(repeatFunc),
 	},
 	// ugo:doc
 	// Replace(s string, old string, new string[, n int]) -> string
@@ -569,10 +575,15 @@ func pad(c ugo.Call, left bool) (ugo.Object, error) {
 		return ugo.Undefined,
 			ugo.NewArgumentTypeError("2nd", "int", c.Get(1).TypeName())
 	}
-	diff := padLen - len(s)
-	if diff <= 0 {
+	if padLen > maxAllocLen {
+		return ugo.Undefined, ugo.NewArgumentTypeError("2nd",
+			"integer less than or equal to "+strconv.Itoa(maxAllocLen),
+			"too large integer")
+	}
+	if padLen <= len(s) {
 		return ugo.String(s), nil
 	}
+	diff := padLen - len(s)
 	padWith := " "
 	if size > 2 {
 		if padWith = c.Get(2).String(); len(padWith) == 0 {
@@ -595,12 +606,19 @@ func pad(c ugo.Call, left bool) (ugo.Object, error) {
 	return ugo.String(sb.String()), nil
 }
 
-func repeatFunc(s string, count int) ugo.Object {
+func repeatFunc(s string, count int) (ugo.Object, error) {
 	// if n is negative strings.Repeat function panics
 	if count < 0 {
-		return ugo.String("")
+		return ugo.String(""), nil
 	}
-	return ugo.String(strings.Repeat(s, count))
+	// if len(s)*count overflows or is too large strings.Repeat function panics
+	if n := len(s); n > 0 && count > maxAllocLen/n {
+		return ugo.Undefined, ugo.NewArgumentTypeError("2nd",
+			"integer with len*count less than or equal to "+
+				strconv.Itoa(maxAllocLen),
+			"too large integer")
+	}
+	return ugo.String(strings.Repeat(s, count)), nil
 }
 
 func replaceFunc(c ugo.Call) (ugo.Object, error) {
